@@ -253,7 +253,7 @@ def rand_payload(rnd: random.Random, maxlen: int) -> str:
 def rand_msg(rnd: random.Random, maxlen: int) -> dict:
     while True:
         cmd = rnd.randint(0, 4)
-        t = rnd.choice([0, 1, 3, 4, 17, 49, rnd.randint(0, 60), -rnd.randint(1, 50), 10 ** rnd.randint(9, 25)])
+        t = rnd.choice([0, 1, 2, 3, 4, 6, 9, 11, 14, 17, 22, 32, 49, rnd.randint(0, 60), -rnd.randint(1, 50), 10 ** rnd.randint(9, 25)])
         n = rnd.choice([0, 1, 9, 10, 99, 100, 254, 255, rnd.randint(0, 255)])
         c = rnd.choice([0, 1, 254, 255, rnd.randint(0, 255)])
         if cmd in (3, 4) and c != 255 and not (cmd == 3 and t in (3, 4)):
@@ -263,7 +263,7 @@ def rand_msg(rnd: random.Random, maxlen: int) -> dict:
         return {"n": n, "c": c, "cmd": cmd, "ack": rnd.randint(0, 1), "t": cps(str(t)), "p": cps(rand_payload(rnd, maxlen))}
 
 
-FIELD_MUT = ["", " ", "a", "-1", "256", "1.0", "+1", " 1", "1 ", "007", "1_0", "99999999999999999999", "1e3", "٣", "0x1", "-", "--1", "1-"]
+FIELD_MUT = ["", " ", "a", "?", "nan", "None", "1,0", "-1", "256", "1.0", "+1", " 1", "1 ", "007", "1_0", "99999999999999999999", "1e3", "٣", "0x1", "-", "--1", "1-"]
 
 
 def rand_line(rnd: random.Random, maxlen: int) -> str:
